@@ -23,6 +23,8 @@ type c6Gen struct {
 	Defers int    `json:"defers,omitempty"` // callbacks registered per GenerateType call
 	// DeferOnly: GenerateType renders nothing itself, everything comes from the callbacks (which must still reach the file)
 	DeferOnly bool `json:"deferonly,omitempty"`
+	// NewDefer (mode new): New(c) registers a Defer callback of its own
+	NewDefer bool `json:"newdefer,omitempty"`
 	Nested    bool `json:"nested,omitempty"` // the first callback registers further callbacks from inside
 	Peek      bool `json:"peek,omitempty"`   // asks Context.Doc about the types of imported packages before rendering
 	// Returns: what GenerateType returns: "" (nil for every type) | skip-some | ignore-some | wrapignore-some (for every second type by name);
@@ -54,6 +56,7 @@ func genC06(t *rapid.T) c6Case {
 		g.Returns = rapid.SampledFrom([]string{"", "", "skip-some", "ignore-some", "wrapignore-some"}).Draw(t, "returns")
 		if rapid.IntRange(0, 2).Draw(t, "mode") == 0 {
 			g.Mode = "new"
+			g.NewDefer = rapid.IntRange(0, 2).Draw(t, "newdefer") == 0
 		}
 		c.Gens = append(c.Gens, g)
 	}
@@ -147,6 +150,9 @@ func (c *c6Case) scripts() []*script.Script {
 				}
 			}
 			s.Default.Defers = append(s.Default.Defers, d)
+		}
+		if g.NewDefer && g.Mode == "new" {
+			s.NewDefer = []script.Piece{{Kind: "block", Text: "\nvar _$G_registered_in_New = 0\n"}}
 		}
 		if g.Returns != "" {
 			s.PerType = map[string]script.Action{}
